@@ -61,7 +61,7 @@ func execStackHist(steps []bufStep, hid int, write func([]byte)) {
 	rjson.VerifStack = recordStack
 	buf := &rjson.Buffer{}
 	for _, s := range steps {
-		runBufStep(s, buf)
+		runBufStep(s, buf, nil)
 	}
 	rjson.VerifStack = nil
 	for _, e := range stackEvents {
